@@ -194,6 +194,15 @@ def worker(args):
                 cls += "+" + c2
         elif r < 0.92:
             base = vocab.valid_string(t, rng) if rng.random() < 0.6 else gen.mutate_string(vocab.valid_string(t, rng), rng, vocab, lits)[0]
+            if rng.random() < 0.15:
+                # a value containing ':' behind a type prefix: the FIRST ':' ends the prefix
+                segs_ = base.split("/")
+                opens_ = [i for i in range(min(len(segs_), t.nseg)) if vocab.info[t.name][i]["open"]]
+                if opens_:
+                    i_ = rng.choice(opens_)
+                    segs_[i_] = rng.choice(["ns:", t.name + ":", ":", "a:b:"]) + segs_[i_]
+                    base = "/".join(segs_)
+                    rec.count("colon_value_behind_prefix")
             s, cls = gen.uri_prefix(base, t.name, rng, model)
         elif r < 0.94:
             # any string: also one with a query tail (its typing is C04's subject - here it must simply not fail)
